@@ -3,7 +3,7 @@
 (* through the verif hook) validated against Backend.tla.  The selected control loop is    *)
 (* classified by probing it: Cycle(255, 0) on a fresh loop yields 255 (direct), m (rate    *)
 (* limited by m), 0 (PID: the first call only starts the clock).                           *)
-EXTENDS Backend, Json, TLC, IOUtils, Sequences
+EXTENDS Backend, Numeric, Json, TLC, IOUtils, Sequences
 VARIABLE l
 Recs == ndJsonDeserialize(IOEnv.VERIF_TRACE)
 N == Len(Recs)
@@ -15,6 +15,10 @@ Has == l <= N
 G11_AlgorithmSelection == Has /\ Cur.ev = "Alg" => Cur.class = AlgOf(Cur.loop, Cur.alg)
 G11_RateLimit == Has /\ Cur.ev = "Alg" /\ Cur.class = "rate" => Cur.probe = Cur.limit
 G11_SensorSeed == Has /\ Cur.ev = "Seed" => Cur.avgm = 1000 * SeedOf(Cur.readOk, Cur.value)
+\* C04 in a daemon with several fans: whatever the other fans' curves do, a fan whose curve value is constant has settled
+\* after K(alg) of ITS cycles at the value the direct algorithm gives, and stays there (each fan has its own loop state)
+C04_MultiFanSettles == Has /\ Cur.ev = "MultiSettle" =>
+  \A i \in 1..Len(Cur.reqs) : Cur.reqs[i] \in RescaleSet(Cur.c, Cur.gmin, Cur.mx)
 Report == l = N + 1 => PrintT(<<"TRACE-DONE", N, "DRIFT", <<>>>>)
 TraceAccepted == TLCGet("stats").diameter = N + 1
 ==============================================================================
